@@ -16,6 +16,7 @@ Line protocol driver for C03. State = (Impl sheet, Spec sheet). One output line 
   get <cell>
   mrg <cell> <cell> | unm <cell> <cell> | gm
   seq <dir> <cell> <n> {<setter> <kind> <a> <b>}^n     SetSheetRow (r) / SetSheetCol (c)
+  scn <name> <variant>                      scratch-file scenario (oracle only; must answer ok)
   obs <c1> <r1> <c2> <r2>                   observation of a box through the getter; cross-checked with Spec
 Cells are hex-encoded spellings, decoded by the C20 model. `~` is the empty token.
 -/
@@ -39,12 +40,8 @@ def rectRef (q : Rect) : String := nameOf q.c1 q.r1 ++ ":" ++ nameOf q.c2 q.r2
 def vTok (sst : List Tok) (v : CellV) : String :=
   if v.v = "" then "-"
   else if v.t = "s" then
-    match unhex v.v.toList with
-    | some ds => match Ref.digitsVal ds with
-      | some i => match sst[i]? with
-        | some e => e
-        | none => "!" ++ v.v
-      | none => "!" ++ v.v
+    match sstEntry? sst v.v with
+    | some e => e
     | none => "!" ++ v.v
   else v.v
 
@@ -243,6 +240,9 @@ def stepLine (st : St) (w : List String) : St × String :=
       | none => (st, "E_REF")
     | some (.error _, _) => (st, "E_REF")
     | none => (st, "bad-op")
+  -- self-contained scenarios run on a scratch file by the harness (code outside the grid model, e.g. shared
+  -- formulas): the specification is "the calls return", the model answers `ok`
+  | ["scn", _, _] => (st, "ok")
   | ["gsty", h] =>
     match decode h with
     | some (.ok (c, r), _) => let (st', res) := apply st (.getStyle c r); out st' res
